@@ -167,3 +167,92 @@ class AllocateOneResource:
                                              and implies(k in result[1], result[1][k] == old_resource_pointers[k])))
                 and forall_int(lambda k: implies(k != resource, (k in result[0]) == (k in old_vertex_allocation)
                                                  and implies(k in result[0], result[0][k] == old_vertex_allocation[k]))))
+
+
+from pyvc.values import TOpt, TTuple, ListV, NONE, ObjV   # noqa: E402
+
+# ---- allocate(): what one constraint contributes to the tables the allocation step reads (fragment, one contract per kind) ------
+
+
+def _tbl_get(kind):
+    def h(E, obj, args, kwargs, st, node):
+        s = st.copy()
+        s.trace = ListV(s.trace.items + ((kind, args[0]),))
+        return [(s, ObjV({"global": "ResList", "local": "LocalChip", "local_res": "ResList"}[kind], {}), None)]
+    return h
+
+
+def _list_append(E, obj, args, kwargs, st, node):
+    s = st.copy()
+    s.trace = ListV(s.trace.items + (("append", args[0]),))
+    return [(s, NONE, None)]
+
+
+def _align_set(E, obj, args, kwargs, st, node):
+    s = st.copy()
+    s.trace = ListV(s.trace.items + (("align_set", args[0], args[1]),))
+    return [(s, NONE, None)]
+
+
+_CONS_EXT = {"GlobalRes.__getitem__": _tbl_get("global"), "LocalRes.__getitem__": _tbl_get("local"), "LocalChip.__getitem__": _tbl_get("local_res"),
+             "ResList.append": _list_append, "Alignments.__setitem__": _align_set}
+_TABLES = dict(globally_reserved=TRec("GlobalRes"), locally_reserved=TRec("LocalRes"), alignments=TRec("Alignments"))
+
+
+@contract("rig/place_and_route/allocate/greedy.py::allocate@forbody:0", variant="reservation")
+class CollectReservation:
+    """a reservation without a location is appended to the GLOBAL list of exactly its resource, one with a location to the list
+    of exactly its resource on exactly that chip - the reserved range itself, unchanged - and nothing else happens"""
+    properties = ("C05",)
+    params = dict(constraint=TRec("ReserveResourceConstraint", resource=TInt(), reservation=SLICE, location=TOpt(TTuple(TInt(), TInt()))), **_TABLES)
+    fragment_result = ()
+    fragment_head = "for constraint in constraints:"
+    externals = _CONS_EXT
+    options = {"no_merge": True}
+    assumptions = ["the three tables (defaultdicts) are opaque: which entry is looked up / appended to / set is recorded"]
+
+    def native(constraint):
+        raise __import__("pyvc.replay", fromlist=["OutsideHarness"]).OutsideHarness()
+
+    def ensures_filed_under_its_own_resource_globally_or_on_its_own_chip(constraint, _trace):
+        return (implies(constraint.location is None,
+                        len(_trace) == 2 and _trace[0] == ("global", constraint.resource) and _trace[1] == ("append", constraint.reservation))
+                and implies(constraint.location is not None,
+                            len(_trace) == 3 and _trace[0] == ("local", unopt9(constraint.location)) and _trace[1] == ("local_res", constraint.resource)
+                            and _trace[2] == ("append", constraint.reservation)))
+
+
+def unopt9(x):
+    return x
+
+
+@contract("rig/place_and_route/allocate/greedy.py::allocate@forbody:0", variant="alignment")
+class CollectAlignment:
+    """an alignment constraint sets the alignment of exactly its resource to exactly its value"""
+    properties = ("C05",)
+    params = dict(constraint=TRec("AlignResourceConstraint", resource=TInt(), alignment=TInt(1, None)), **_TABLES)
+    fragment_result = ()
+    fragment_head = "for constraint in constraints:"
+    externals = _CONS_EXT
+
+    def native(constraint):
+        raise __import__("pyvc.replay", fromlist=["OutsideHarness"]).OutsideHarness()
+
+    def ensures_sets_the_alignment_of_its_resource(constraint, _trace):
+        return len(_trace) == 1 and _trace[0] == ("align_set", constraint.resource, constraint.alignment)
+
+
+@contract("rig/place_and_route/allocate/greedy.py::allocate@forbody:0", variant="other_constraint")
+class CollectOther:
+    """constraints of other kinds (locations, same-chip groups, route end points) reserve and align nothing"""
+    properties = ("C05",)
+    params = dict(constraint=TRec("LocationConstraint", vertex=TInt(), location=TTuple(TInt(), TInt())), **_TABLES)
+    fragment_result = ()
+    fragment_head = "for constraint in constraints:"
+    externals = _CONS_EXT
+
+    def native(constraint):
+        raise __import__("pyvc.replay", fromlist=["OutsideHarness"]).OutsideHarness()
+
+    def ensures_nothing_is_filed(_trace):
+        return len(_trace) == 0
